@@ -11,12 +11,13 @@ for id in $ids; do
   git -C /repo apply /verif/$d/patch.diff || { echo "$id: patch does not apply"; continue; }
   : > /tmp/seeded_$id.txt
   T=$(mktemp -d /tmp/seeded_run.XXXXXX)
-  echo $props | tr ' ' '\n' | xargs -P 5 -I{} sh -c 'bin/sgcheck -property {} -tier quick -no-evidence > '$T'/{}.out 2>&1; echo $? > '$T'/{}.rc'
+  echo $props | tr ' ' '\n' | xargs -P 5 -I{} sh -c '${SGCHECK:-bin/sgcheck} -property {} -tier quick -no-evidence > '$T'/{}.out 2>&1; echo $? > '$T'/{}.rc'
   for p in $props; do
     echo "### $p rc=$(cat $T/$p.rc)" >> /tmp/seeded_$id.txt
     grep -E "^VIOLATION|^  rule=|^UNDECIDED|^COVERAGE|^CHECK-ERROR" $T/$p.out >> /tmp/seeded_$id.txt
   done
   rm -rf $T
+  git -C /repo apply -R /verif/$d/patch.diff 2>/dev/null   # also removes files the patch created
   git -C /repo checkout -- .
   python3 - $id <<'PY'
 import sys,re,json
